@@ -5,7 +5,7 @@ import time
 import z3
 
 from vlib import env, gen
-from vlib.zrun import explore_and_prove, wrapper_exc, all_eq, concretize, pyrepr, eq_term
+from vlib.zrun import twin_verdict, explore_and_prove, wrapper_exc, all_eq, concretize, pyrepr, eq_term
 from vlib.zsym import Ctx, Int, Real, SymBool, SymNum, sym_int, model_value, lift
 
 META = {
@@ -294,7 +294,7 @@ def task_categorize(nr, nkeys, hi):
                                       replay_src=REPLAY_CAT % dict(rxs=pyrepr(cr), keys=keys + ["Z"], mode="categorize")))
     res["twin"] = "violated"
     ot = explore_and_prove(fn, assum, lambda p: False if p.kind == "exc" else (len(p.value["unaffected"]) == 0), max_paths=100000, deadline_s=120, max_fail=1)
-    res["twin"] = "violated" if ot.failed else "passed"
+    res["twin"] = twin_verdict(ot)
     res["status"] = "violation" if res["violations"] else ("inconclusive" if res["inconclusive"] else "discharged")
     return res
 
@@ -356,7 +356,7 @@ def task_equilibria(nr, nkeys, hi, presence=None):
         res["violations"].append(dict(key="equilibria:%s" % p.kind, desc="reactions %s -> %r" % (cr, p.value),
                                       replay_src=REPLAY_CAT % dict(rxs=pyrepr(cr), keys=keys, mode="equilibria")))
     ot = explore_and_prove(fn, assum, lambda p: False if p.kind == "exc" else (len(p.value[0]) == 0), max_paths=100000, deadline_s=120, max_fail=1)
-    res["twin"] = "violated" if ot.failed else "passed"
+    res["twin"] = twin_verdict(ot)
     res["status"] = "violation" if res["violations"] else ("inconclusive" if res["inconclusive"] else "discharged")
     return res
 
@@ -526,7 +526,7 @@ def task_bounds(systems):
                                           replay_src=REPLAY_UB % dict(rxns=rxn_strs, c0=pyrepr(cc0), c=pyrepr(cc))))
         if tw is None:
             ot = explore_and_prove(fn, assum, lambda p: goal(p, True), max_paths=20000, deadline_s=60, max_fail=1)
-            tw = "violated" if ot.failed else "passed"
+            tw = twin_verdict(ot)
     res["twin"] = tw
     res["sample"] = {"system": systems[0], "initial state": "symbolic non-negative reals"}
     res["status"] = "violation" if res["violations"] else ("inconclusive" if res["inconclusive"] else "discharged")
@@ -601,7 +601,7 @@ def task_constructor():
     res = dict(engine="Z", functions=[env.describe(ReactionSystem.check_duplicate), env.describe(ReactionSystem.check_substance_keys),
                                       env.describe(ReactionSystem.check_duplicate_names), env.describe(Reaction.__eq__)],
                obligations=o.obligations + 1, discharged=o.discharged + (0 if bad else 1), violations=[], inconclusive=list(o.inconclusive),
-               queries=o.queries, paths=o.paths, solver_s=o.solver_s, twin="violated" if ot.failed else "passed",
+               queries=o.queries, paths=o.paths, solver_s=o.solver_s, twin=twin_verdict(ot),
                bounds="2 reactions x 3 keys, coefficients 0..2 symbolic", sample={"claim": "constructor refuses <=> the two reactions are equal"})
     for p, m, g in o.failed[:1]:
         cr = [tuple(concretize(m, d) for d in r) for r in rxs]
@@ -679,7 +679,7 @@ def task_concatenate():
     res = dict(engine="Z", functions=[env.describe(ReactionSystem.concatenate), env.describe(ReactionSystem.per_substance_varied),
                                       env.describe(ReactionSystem.as_per_substance_array)], obligations=o.obligations + 1, discharged=o.discharged,
                violations=[], inconclusive=list(o.inconclusive), queries=o.queries, paths=o.paths, solver_s=o.solver_s,
-               twin="violated" if ot.failed else "passed", bounds="3 single-reaction systems, coefficient 1..2 symbolic; ordering by concrete structure",
+               twin=twin_verdict(ot), bounds="3 single-reaction systems, coefficient 1..2 symbolic; ordering by concrete structure",
                sample={"claim": "kept iff different from every reaction kept before"})
     for p, m, g in o.failed[:1]:
         res["violations"].append(dict(key="concatenate:%s" % p.kind, soft=wrapper_exc(p.value), desc="coefficients %s -> %r" % (concretize(m, cs), p.value),
